@@ -530,7 +530,7 @@ def _create_template(expression, operation):
     elif expression == 're_log':
         return EtaAddition.re_logit()
     else:
-        expression = parse_expr(f'original {operation} {expression}')
+        expression = parse_expr(f'original {operation} ({expression})')
         return EtaAddition(expression)
 
 
